@@ -32,7 +32,7 @@ STUB = ['dsim/vsim parser + elaborator as the judge of legality']
 ASSUMPTIONS = ['legality = the elaboration rules listed in dsim/vsim/README.md (declared once, not reserved, defined once, '
                'interfaces match, one driver per net bit); debatable rules are lenient']
 _KF = known_findings()
-PROBES = ['refused_then_repaired_shared_list', 'shared_created_structures', 'system_as_top', 'built_around_another_system', 'text_elaborated', 'reserved_name', 'gen_crash', 'regen_other', 'child_module', 'created_structures'] + [
+PROBES = ['hundreds_of_modules', 'module_shared_by_instances', 'refused_then_repaired_shared_list', 'shared_created_structures', 'system_as_top', 'built_around_another_system', 'text_elaborated', 'reserved_name', 'gen_crash', 'regen_other', 'child_module', 'created_structures'] + [
     p for p, tok in (('prefix_collision', 'prefix-collision-w'), ('clk_port', 'port-named-clk'), ('inst_port_collision', 'port-vs-instance-name'))
     if not _KF.excluded(tok)]      # naming faults of open findings are kept out of the campaign (their reproducers are replayed instead)
 
@@ -44,6 +44,9 @@ RESERVED = ['reg', 'wire', 'output', 'input', 'signed', 'module', 'begin', 'end'
 def gen(rs, tier, index):
     kf = known_findings()
     rng = rs.get('design')
+    if rng.random() < (0.002 if tier == 'quick' else 0.001):
+        return {'bulkmods': [rng.choice([300, 600, 600, 1000]), rs.sub('bulk')], 'design': None, 'order': None,
+                'calls': [{'c': 'hier', 'fresh': True}], 'naming': [], 'other_seed': 0, 'late': None}
     comb, seqk = emittable_kinds()
     n = rng.choice([3, 5, 8, 14]) if tier == 'quick' else rng.choice([5, 12, 30])
     d = netlist.gen_design(rng, n, comb, hier_depth=rng.choice([0, 1, 2, 3]), feedback=rng.choice([0, 0.2]),
@@ -223,7 +226,50 @@ def instantiated_modules(text):
     return tuple(sorted(used - defined))
 
 
+def check_interchangeable(b, si, what, scn, st):
+    """objects emitted under one module name must be interchangeable: every instance is bound to the body emitted for the
+    first of them.  Judged on the module text each of them gives when it is asked for on its own."""
+    from .c19 import canonical
+    g = py4hw.VerilogGenerator(b.dut)
+    groups = {}
+    for o in seams.walk(b.dut):
+        if o is b.dut or g.isInlinable(o):
+            continue
+        try:
+            nm = py4hw.getVerilogModuleName(o)
+        except Exception:
+            continue
+        groups.setdefault(nm, []).append(o)
+    for nm in sorted(groups):
+        objs = groups[nm]
+        if len(objs) < 2:
+            continue
+        st.probe('module_shared_by_instances')
+        ref = None
+        for o in objs[:5]:
+            try:
+                with quiet():
+                    t = canonical(py4hw.VerilogGenerator(b.dut).getVerilog(obj=o))
+            except Exception:
+                continue
+            # the default of a module parameter is the value of the instance the text was asked for; every instance
+            # overrides it ( #(.STEP(v)) ), so it is no part of what the instances share
+            import re
+            t = re.sub(r'(parameter\s+\w+)\s*=\s*[^,)\n]+', r'\1', t)
+            if ref is None:
+                ref = (o, t)
+            elif t != ref[1]:
+                diff = next((x for x in zip(ref[1].split('\n'), t.split('\n')) if x[0] != x[1]), ('', ''))
+                raise Violation('shared-name', 'shared-name:%s%s' % (type(o).__name__, predicate(scn, b)), si,
+                                '%s: %s and %s are both emitted as module %s but their bodies differ: %r vs %r' % (
+                                    what, ref[0].getFullPath(), o.getFullPath(), nm, diff[0][:120], diff[1][:120]))
+
+
 def run(scn, log, st):
+    if scn.get('bulkmods'):
+        scn = dict(scn, design=netlist.bulk_modules(*scn['bulkmods']))
+        scn['order'] = list(scn['design']['order'])
+        st.probe('hundreds_of_modules')
     d = scn['design']
     nfs = naming_faults(d)
     for f in nfs:
@@ -341,6 +387,8 @@ def run(scn, log, st):
             except vsim.VParseError:
                 bb = ()
         judge(text, top, si, what, scn, blackboxes=bb, b=b)
+        if c == 'hier':
+            check_interchangeable(b, si, what, scn, st)
         texts += 1
         st.probe('text_elaborated')
         from .c19 import canonical
@@ -354,6 +402,12 @@ def sig_base(sig):
 
 
 def shrink(scn):
+    if scn.get('bulkmods'):
+        nb, sd = scn['bulkmods']
+        for m in (nb // 2, nb * 3 // 4, nb - 20, nb - 1):
+            if 2 <= m < nb:
+                yield dict(scn, bulkmods=[m, sd])
+        return
     yield from shrink_list(scn, 'calls', 1)
     d = scn['design']
     ids = [n['id'] for n in d['nodes']]
